@@ -1548,9 +1548,20 @@ def _record_circuit(ex, st, c):
     st.events.append(('Compile', ex.tname(tid), {n: snapshot(ex, st, v) for n, v in zip(names, val.f)}))
 
 
+def compile_option(ex, st, args, ctx):
+    used('frontend.With*/IgnoreUnconstrainedInputs: compiler options are recorded by name and arguments')
+    return Opaque('compileopt', sig='%s(%s)' % (ctx['name'].split('.')[-1], ', '.join(str(conc(a)) if z3.is_expr(a) else repr(a) for a in args)))
+
+
 def frontend_Compile(ex, st, args, ctx):
-    used('frontend.Compile / extractor.ExtractCircuits: record the circuit struct handed over (deep snapshot); return an opaque constraint system or an error')
+    used('frontend.Compile / extractor.ExtractCircuits: record the circuit struct handed over (deep snapshot) and the compiler options; return an opaque constraint system or an error')
     _record_circuit(ex, st, args[2])
+    opts = [c for c in (ex.cells(st, args[3])[:args[3].len] if len(args) > 3 and args[3] is not NIL and isinstance(args[3].len, int) else [])]
+    sig = []
+    for o_ in opts:
+        o_ = o_.v if isinstance(o_, Iface) else o_
+        sig.append(getattr(o_, 'sig', None) or (o_.name if isinstance(o_, Func) else repr(o_)))
+    st.events.append(('CompileOptions', tuple(sig)))
     c = z3.Bool(ex.newsym('compile_ok'))
     return Forks([(c, (Opaque('cs', sys='compiled', oid=new_oid()), NIL), None), (z3.Not(c), (NIL, Iface(-1, Opaque('error', msg=S('compile error'), origin=ctx['pos']))), None)])
 
@@ -1568,6 +1579,12 @@ def _compiled(st):
 
 def i_compiled_count(ex, st, args, ctx):
     return bvval(len(_compiled(st)), 64)
+
+
+def i_compiled_options(ex, st, args, ctx):
+    k = conc(args[0])
+    os_ = [e for e in st.events if e[0] == 'CompileOptions']
+    return S('; '.join(os_[k][1]) if k < len(os_) else '<none>')
 
 
 def i_compiled_kind(ex, st, args, ctx):
@@ -1626,9 +1643,11 @@ def abstractor_Call(nres):
     return f
 
 
-INTRINSICS.update({'verifCompiledCount': i_compiled_count, 'verifCompiledKind': i_compiled_kind, 'verifCompiledInt': i_compiled_int, 'verifCompiledLen': i_compiled_len,
+INTRINSICS.update({'verifCompiledOptions': i_compiled_options, 'verifCompiledCount': i_compiled_count, 'verifCompiledKind': i_compiled_kind, 'verifCompiledInt': i_compiled_int, 'verifCompiledLen': i_compiled_len,
                    'verifStubAPI': lambda ex, st, a, c: Opaque('api')})
-BASE.update({'github.com/consensys/gnark/frontend.Compile': frontend_Compile, 'github.com/reilabs/gnark-lean-extractor/v2/extractor.ExtractCircuits': extractor_ExtractCircuits,
+BASE.update({'github.com/consensys/gnark/frontend.WithCompressThreshold': compile_option, 'github.com/consensys/gnark/frontend.WithCapacity': compile_option,
+             'github.com/consensys/gnark/frontend.IgnoreUnconstrainedInputs': compile_option,
+             'github.com/consensys/gnark/frontend.Compile': frontend_Compile, 'github.com/reilabs/gnark-lean-extractor/v2/extractor.ExtractCircuits': extractor_ExtractCircuits,
              'worldcoin/gnark-mbu/prover.LoadProvingKey': lambda ex, st, a, c: (Opaque('pk', sys='file', oid=new_oid()), NIL),
              'worldcoin/gnark-mbu/prover.LoadVerifyingKey': lambda ex, st, a, c: (Opaque('vk', sys='file', oid=new_oid()), NIL),
              'github.com/reilabs/gnark-lean-extractor/v2/abstractor.Call': abstractor_Call(0), 'github.com/reilabs/gnark-lean-extractor/v2/abstractor.Call1': abstractor_Call(1),
